@@ -178,10 +178,14 @@ fn resume_contract<const FIRST: u64, const N: u64, const START: u64>() {
     let mut next = START;
     let mut round = 0;
     while round < 2 && next < end {
-        let (commands, _data, index) = match r.get_commands(&mut sp) {
+        let (commands, _data, index, resume) = match r.get_commands(&mut sp) {
             Ok(x) => x,
             Err(_) => panic!("get_commands failed"),
         };
+        // what get_next does after a delivered response
+        if let Some(l) = resume {
+            r.to_send[index] = l;
+        }
         let want = core::cmp::min(5, end - next);
         assert!(commands.len() as u64 == want);
         let mut k = 0;
